@@ -1,6 +1,7 @@
 CONSTANTS MaxSteps = 3
           Shape = "focused"
           SeedNames = {"num"}
+          ErrOnly = {}
           Hist = TRUE
 INIT Init
 NEXT Next
